@@ -271,9 +271,11 @@ def rule_R2(text):
 
 
 def rule_R3(text):
-    """std::cmp::max(  ->  max_i32(   (verified local helper)"""
-    n = len(re.findall(r"\bstd::cmp::max\(", text))
-    return re.sub(r"\bstd::cmp::max\(", "max_i32(", text), n
+    """std::cmp::max( / std::cmp::min(  ->  max_i32( / min_i32(   (verified local helpers)"""
+    n = len(re.findall(r"\bstd::cmp::(max|min)\(", text))
+    text = re.sub(r"\bstd::cmp::max\(", "max_i32(", text)
+    text = re.sub(r"\bstd::cmp::min\(", "min_i32(", text)
+    return text, n
 
 
 def rule_R4(text):
@@ -478,7 +480,33 @@ def parse_template(path):
     return out
 
 
-def process_block(blk, report, twin=None):
+def const_closure(src, mask, text, defined, report_list, depth=0):
+    """ALL_CAPS identifiers used by an extracted item but defined nowhere in the unit are looked up as
+    const/static items of the same source file and extracted verbatim too (mechanical dependency closure)."""
+    out = ""
+    if depth > 4:
+        return out
+    tmask = mask_source(text)
+    for m in re.finditer(r"(?<![:\w])([A-Z][A-Z0-9_]{2,})\b", tmask):
+        name = m.group(1)
+        if name in defined:
+            continue
+        for kind in ("const", "static"):
+            try:
+                st, en, _ = find_item(src, mask, kind, name)
+            except LostAnchor:
+                continue
+            defined.add(name)
+            item = src[st:en]
+            out += const_closure(src, mask, item, defined, report_list, depth + 1)
+            out += item + "\n"
+            report_list.append({"auto_extracted": name, "kind": kind,
+                                "sha256": hashlib.sha256(item.encode()).hexdigest()[:16]})
+            break
+    return out
+
+
+def process_block(blk, report, twin=None, defined=None):
     path = os.path.join(REPO, blk.path)
     if not os.path.exists(path):
         raise LostAnchor("source file %s missing" % blk.path)
@@ -533,7 +561,7 @@ def process_block(blk, report, twin=None):
         inserts = []  # (offset, order, string)
         order = 0
         secs = list(blk.sections)
-        if twin == "entry":
+        if twin == "entry" or twin == "one:" + blk.name:
             secs.append(("entry", ["proof { assert(false); } // VACUITY-PROBE entry %s\n" % blk.name], 0))
         if twin and twin.startswith("loop:"):
             # single probe: loop:<fn>:<n>
@@ -563,11 +591,16 @@ def process_block(blk, report, twin=None):
     elif blk.sections:
         raise LostAnchor("sections on non-fn item " + blk.name)
 
-    head = "".join(a + "\n" for a in keep_attrs) + "".join(a + "\n" for a in getattr(blk, "fnattrs", []))
+    auto = []
+    closure = ""
+    if blk.kind == "fn" and defined is not None:
+        closure = const_closure(src, mask, src[start:end], defined, auto)
+    head = closure + "".join(a + "\n" for a in keep_attrs) + "".join(a + "\n" for a in getattr(blk, "fnattrs", []))
     report.append({
         "item": blk.name, "kind": blk.kind, "file": blk.path, "impl": blk.opts.get("impl"),
         "sha256": sha, "tags": blk.tags, "rewrites": applied,
         "dropped_attrs": [a for a in attrs if a not in keep_attrs],
+        "auto_extracted_consts": auto,
         "src_lines": [src.count("\n", 0, start) + 1, src.count("\n", 0, end) + 1],
     })
     return head + text + "\n"
@@ -578,6 +611,12 @@ def generate(unit, twin=None, outdir=None):
     outdir = outdir or os.path.join(VERIF, "build")
     os.makedirs(outdir, exist_ok=True)
     parts = parse_template(tpl)
+    defined = set()
+    for kind, val in parts:
+        if kind == "text":
+            defined.update(re.findall(r"\b(?:const|static|fn|struct|enum|type)\s+(\w+)", val))
+        else:
+            defined.add(val.name)
     report = []
     out_lines = []
     regions = []   # {"item":..., "first":line, "last":line, "tags":[...]}
@@ -587,7 +626,7 @@ def generate(unit, twin=None, outdir=None):
             out_lines.append(val)
             cur_line += val.count("\n")
         else:
-            txt = process_block(val, report, twin)
+            txt = process_block(val, report, twin, defined)
             n = txt.count("\n")
             regions.append({"item": val.name, "kind": val.kind, "first": cur_line,
                             "last": cur_line + n - 1, "tags": val.tags, "file": val.path})
@@ -597,8 +636,10 @@ def generate(unit, twin=None, outdir=None):
     out_path = os.path.join(outdir, unit + suffix + ".rs")
     text = "".join(out_lines)
     if twin == "entry":
-        # lemmas (proof fns in the prelude) get a probe too: done by the caller via regex on 'proof fn'
+        # lemmas (proof fns in the prelude) get a probe too
         text = add_lemma_probes(text)
+    elif twin and twin.startswith("one:"):
+        text = add_lemma_probes(text, only=twin[4:])
     with open(out_path, "w") as f:
         f.write(text)
     meta = {"unit": unit, "template": tpl, "generated": out_path, "items": report, "regions": regions,
@@ -608,11 +649,13 @@ def generate(unit, twin=None, outdir=None):
     return out_path, meta
 
 
-def add_lemma_probes(text):
+def add_lemma_probes(text, only=None):
     """insert assert(false) at the entry of every `proof fn` body in the prelude (vacuity twin)"""
     mask = mask_source(text)
     out, last = [], 0
     for m in re.finditer(r"\bproof\s+fn\s+(\w+)", mask):
+        if only is not None and m.group(1) != only:
+            continue
         # find body '{' at paren depth 0 -- skip if external_body / axiom (body never checked)
         k, pd = m.end(), 0
         while k < len(mask):
